@@ -855,10 +855,9 @@ def self_test(ctx):
 
 # ---------------------------------------------------------------------------------------------------------
 def load_facts(ctx):
-    _, side = T.out_paths()
-    if not os.path.exists(side):
-        T.generate(ctx)
-    facts = json.load(open(side))
+    # recomputed in this process from the tree under test (the shared sidecar file may belong to a concurrent check
+    # of another tree: line numbers and node ids would not match)
+    facts = T.facts_for(common.REPO)
     facts["_reach"] = {c: set(v["reach"]) for c, v in facts["configs"].items()}
     return facts
 
